@@ -856,6 +856,7 @@ func contains(xs []string, x string) bool {
 
 func runIn(dir string, name string, args ...string) (bool, string) {
 	cmd := exec.Command(name, args...)
+	cmd.Env = OrigEnv
 	cmd.Dir = dir
 	out, err := cmd.CombinedOutput()
 	return err == nil, string(out)
